@@ -259,10 +259,39 @@ def _switch_groups(text, opnames):
     return groups
 
 
+def canon_locals(body, expected, what):
+    """rename the locals of a C body (identifiers declared with an integer / pointer type, in order of first declaration) to the names the
+    extractor's patterns are written with, so that a renamed local is not a shape change; a different NUMBER of locals is"""
+    seen = []
+    for m in re.finditer(r"\b(?:u?int(?:32|8|64)?_t|int|JanetcRegisterAllocator|JanetSymbolMap)\s*\*?\s*([A-Za-z_]\w*)\s*(?==|;)", body):
+        if m.group(1) not in seen:
+            seen.append(m.group(1))
+    if len(seen) != len(expected):
+        raise ExtractError("%s: declares the locals %s, the model of it has %s" % (what, seen, expected))
+    if seen == expected:
+        return body
+    tmp = {name: "__L%d__" % k for k, name in enumerate(seen)}
+    out = re.sub(r"(?<![\w>.])([A-Za-z_]\w*)\b", lambda m: tmp.get(m.group(1), m.group(1)), body)
+    for k, name in enumerate(expected):
+        out = out.replace("__L%d__" % k, name)
+    return out
+
+
 def extract_movopt(tree, ops, found):
     src = csrc.strip_comments(csrc.read(tree, "src/core/bytecode.c"))
     check_fp("bytecode.c:janet_bytecode_remove_noops", csrc.func_body(src, "janet_bytecode_remove_noops"), found)
-    b = csrc.func_body(src, "janet_bytecode_movopt")
+    b = canon_locals(csrc.func_body(src, "janet_bytecode_movopt"), ["ra", "recur", "i", "index", "mask", "instr"], "janet_bytecode_movopt")
+    nb = norm(b)
+    # operand-field macros the two switches are written with
+    for name, rx in (("AA", r"\(\(instr >> 8\) & 0xFF\)"), ("BB", r"\(\(instr >> 16\) & 0xFF\)"), ("CC", r"\(instr >> 24\)"),
+                     ("DD", r"\(instr >> 8\)"), ("EE", r"\(instr >> 16\)")):
+        if not re.search(r"#define %s %s(?= |$)" % (name, rx), nb):
+            raise ExtractError("movopt: operand-field macro %s is not the expected shift / mask of the instruction word" % name)
+    # slots of the closure bitset count as read (what `movopt_preserves_x` needs: dead slots disjoint from captured slots); passes repeat
+    if not re.search(r"while \(recur\) \{ janetc_regalloc_init\(&ra\); if \(def->closure_bitset != NULL\) \{ for \(int32_t i = 0; i < def->slotcount; i\+\+\) \{ "
+                     r"int32_t index = i >> 5; uint32_t mask = 1U << \(\(\(uint32_t\) ?i\) & 31\); if \(def->closure_bitset\[index\] & mask\) \{ "
+                     r"janetc_regalloc_touch\(&ra, i\); \} \} \}", nb):
+        raise ExtractError("movopt: the slots of the closure bitset are no longer marked as read before the scan")
     sw = [m.start() for m in re.finditer(r"switch \(instr & 0x7F\) \{", b)]
     if len(sw) != 2:
         raise ExtractError("movopt: expected two switches over the opcode")
@@ -413,7 +442,8 @@ def extract_callsite(tree, found):
 def extract_noops(tree, ops):
     """bytecode.c janet_bytecode_remove_noops: which opcodes have their jump operand rewritten, and in which field (shift 8 = D, 16 = E)"""
     src = csrc.strip_comments(csrc.read(tree, "src/core/bytecode.c"))
-    b = csrc.func_body(src, "janet_bytecode_remove_noops")
+    b = canon_locals(csrc.func_body(src, "janet_bytecode_remove_noops"),
+                     ["pc_map", "new_bytecode_length", "i", "instr", "opcode", "j", "old_jump_target", "new_jump_target", "sm"], "janet_bytecode_remove_noops")
     nb_all = norm(b)
     if not re.search(r"for \(int32_t i = 0; i < def->bytecode_length; i\+\+\) \{ uint32_t instr = def->bytecode\[i\]; uint32_t opcode = instr & 0x7F; "
                      r"pc_map\[i\] = new_bytecode_length; if \(opcode != JOP_NOOP\) \{ new_bytecode_length\+\+; \} \} "
